@@ -3,7 +3,7 @@
    of the driver runs); [original] is the code as it was, for which the two
    liveness clauses are refuted below. *)
 From Coq Require Import List NArith Bool Arith Ascii.
-From Martian.C04 Require Import Model Proofs.
+From Martian.C04 Require Import Model Proofs Proofs_After.
 Import ListNotations.
 Open Scope char_scope.
 
@@ -150,6 +150,28 @@ Theorem C04_model_meets_spec : forall early peeked ps vs,
   run_script repaired (init early peeked) ps = Some vs -> vs = spec_views early peeked ps.
 Proof. exact run_script_meets_spec. Qed.
 Print Assumptions C04_model_meets_spec.
+
+
+(* ---------------- after the tunnel -------------- *)
+
+(* Once both copy loops have ended ([Join]) handleConnectRequest returns a
+   result that makes handleLoop leave and close the client connection: the
+   proxy never reads another request from the former tunnel connection.  The
+   four source facts come from proxy.go through harness/cmd/gen_c04; if the
+   return value stops being errClose this theorem no longer checks. *)
+Theorem C04_after_join_connection_released :
+  after_tunnel_here = mkAfter true false /\
+  forall a b c d, after_tunnel a b c d = mkAfter true false
+                  <-> a = true /\ b = true /\ c = true /\ d = true.
+Proof. exact (conj after_tunnel_released after_tunnel_iff). Qed.
+Print Assumptions C04_after_join_connection_released.
+
+(* the probe's oracle: a write into the dead tunnel eventually fails and the
+   canary origin is never contacted *)
+Theorem C04_probe_oracle_is_the_property : forall w q,
+  probe_ok w q = true <-> w = true /\ q = false.
+Proof. exact probe_ok_iff. Qed.
+Print Assumptions C04_probe_oracle_is_the_property.
 
 (* ---------------- the code as it was -------------- *)
 
